@@ -227,13 +227,37 @@ func runC10(r *Report, tier string) {
 				why = "protected bytes are taken from " + parent.String() + ", not from the parent value"
 			}
 			wantPayload := pField(tval, arm.payloadField)
-			if why == "" && !b["PAYLOAD"].eq(projectField(tval, arm.payloadField)) {
+			if why == "" && !parentField(P, F, b["PAYLOAD"], tval, arm.payloadField) {
 				why = fmt.Sprintf("payload position holds %s, expected %s", b["PAYLOAD"], wantPayload)
 			}
-			if why == "" && arm.other && !b["PSIG"].eq(projectField(tval, "Signature")) {
+			if why == "" && arm.other && !parentField(P, F, b["PSIG"], tval, "Signature") {
 				why = "other_fields holds " + b["PSIG"].String() + ", expected the parent's signature"
 			}
-			// refusals
+			// refusals: the tests may sit in a helper whose success the path
+			// requires, and may read the parent through an unchanged local copy
+			fs := fs.clone()
+			{
+				alts := P.expandConds(fp.conds, 0)
+				var common factSet
+				for _, a := range alts {
+					q := Path{conds: a}
+					if !q.feasible() {
+						continue
+					}
+					cur := factSet{}
+					for _, c := range a {
+						cur.add(normFact(resolveCopyLoads(P, F, c.Pred, tval), c.Val))
+					}
+					if common == nil {
+						common = cur
+					} else {
+						common = intersect(common, cur)
+					}
+				}
+				for _, f := range common {
+					fs.add(f)
+				}
+			}
 			for _, rf := range arm.refuse {
 				parts := strings.SplitN(rf, ":", 2)
 				ft := projectField(tval, parts[1])
@@ -370,7 +394,9 @@ func builderCallAt(P *Prog, s *keySite, F *ssa.Function) *Term {
 	return nil
 }
 
-// isCopyOf: t is an alloc of F whose only store is the value v.
+// isCopyOf: t is an alloc of F that holds the value v unchanged: its only
+// store is the whole value v, its fields are only read, and no call that
+// receives its address writes through it.
 func isCopyOf(P *Prog, F *ssa.Function, t, v *Term) bool {
 	if t.Op != "alloc" {
 		return false
@@ -383,11 +409,52 @@ func isCopyOf(P *Prog, F *ssa.Function, t, v *Term) bool {
 			}
 			n := 0
 			okv := false
-			for _, ref := range *a.Referrers() {
-				if st, ok := ref.(*ssa.Store); ok && st.Addr == a {
-					n++
-					okv = P.terms.of(st.Val).eq(v)
+			var readOnly func(addr ssa.Value) bool
+			readOnly = func(addr ssa.Value) bool {
+				for _, ref := range *addr.Referrers() {
+					switch u := ref.(type) {
+					case *ssa.Store:
+						if u.Addr == addr {
+							if addr != ssa.Value(a) {
+								return false
+							}
+							n++
+							okv = P.terms.of(u.Val).eq(v)
+						} else {
+							return false // the address itself is stored somewhere
+						}
+					case *ssa.UnOp, *ssa.DebugRef:
+					case *ssa.FieldAddr:
+						if !readOnly(u) {
+							return false
+						}
+					case *ssa.IndexAddr:
+						if !readOnly(u) {
+							return false
+						}
+					case ssa.CallInstruction:
+						callee := staticCallee(u)
+						if callee == nil || !P.inPkg(callee) {
+							return false
+						}
+						for i, arg := range u.Common().Args {
+							if arg != addr {
+								continue
+							}
+							for _, w := range P.effects.summary(callee).writes {
+								if w.kind == "unknown" || w.kind == "callparam" || (w.kind == "param" && w.param == i) {
+									return false
+								}
+							}
+						}
+					default:
+						return false
+					}
 				}
+				return true
+			}
+			if !readOnly(a) {
+				return false
 			}
 			return n == 1 && okv
 		}
@@ -397,10 +464,45 @@ func isCopyOf(P *Prog, F *ssa.Function, t, v *Term) bool {
 
 // resolveParentCopy rewrites loads through a local copy of the asserted
 // parent value (`t := target.(K)` spilled to an alloc because its address is
-// taken) into projections of the value itself where the engine has not
-// already forwarded them.
+// taken, e.g. by a pointer-receiver helper) into projections of the value
+// itself.
 func resolveParentCopy(P *Prog, F *ssa.Function, p *Path, content, tval *Term) *Term {
 	return content
+}
+
+// resolveCopyLoads rewrites loads through an unchanged local copy of the
+// parent value into projections of the value.
+func resolveCopyLoads(P *Prog, F *ssa.Function, t, tval *Term) *Term {
+	return t.rewrite(func(u *Term) *Term {
+		if u.Op != "load" {
+			return nil
+		}
+		var path []string
+		a := u.Args[0]
+		for a.Op == "field" {
+			path = append([]string{a.S}, path...)
+			a = a.Args[0]
+		}
+		if a.Op != "alloc" || !isCopyOf(P, F, a, tval) {
+			return nil
+		}
+		return projectPath(tval, path)
+	})
+}
+
+// parentField: t is field f of the parent value tval, read from the value
+// itself or through an unchanged local copy of it.
+func parentField(P *Prog, F *ssa.Function, t, tval *Term, f string) bool {
+	if t == nil {
+		return false
+	}
+	if t.eq(projectField(tval, f)) {
+		return true
+	}
+	if t.Op == "load" && t.Args[0].Op == "field" && t.Args[0].S == f {
+		return isCopyOf(P, F, t.Args[0].Args[0], tval)
+	}
+	return false
 }
 
 func mutC10() []mutant {
